@@ -130,6 +130,8 @@ type World struct {
 	// Poisoned: a panic escaped BeginBlock/EndBlock/Commit; baseapp keeps its half-built deliver
 	// state, so this instance must not be reused (not even after Restore)
 	Poisoned bool
+	// BlockTxs: raw transactions delivered in the block being / last executed
+	BlockTxs [][]byte
 }
 
 func appOptions(skipInv bool) simtestutil.AppOptionsMap {
@@ -349,12 +351,14 @@ func (w *World) BeginBlockAt(t time.Time) (res abci.ResponseBeginBlock, pan stri
 		}
 	}()
 	w.hdr = tmproto.Header{ChainID: ChainID, Height: w.Height + 1, Time: t, AppHash: w.App.LastCommitID().Hash}
+	w.BlockTxs = nil
 	res = w.App.BeginBlock(abci.RequestBeginBlock{Header: w.hdr})
 	w.inBlk = true
 	return
 }
 
 func (w *World) DeliverTx(bz []byte) TxRes {
+	w.BlockTxs = append(w.BlockTxs, bz)
 	r := w.App.DeliverTx(abci.RequestDeliverTx{Tx: bz})
 	return TxRes{Code: r.Code, Codespace: r.Codespace, Data: r.Data, GasWanted: r.GasWanted, GasUsed: r.GasUsed, Log: r.Log, Events: r.Events}
 }
